@@ -315,13 +315,15 @@ new violation): `use_fstrings` on a template ending in a newline dropped the tex
 and that newline (`"%s and %s!\n"` → `f"{a} and {c}\n"`). -/
 def oldD16_fstringTail (c : FixCase) : Bool := c.pctTail && (match c.adds with | some (_ :: _) => true | _ => false)
 
-/-- **Class `fstringZeroPrecision`**: `maybe_replace_with_fstring` tests the parts of a specifier for
+/-- **Former class `fstringZeroPrecision`** (repaired by efac5a4; no longer printed — a recurrence is new):
+`maybe_replace_with_fstring` tested the parts of a specifier for
 truthiness, so a precision (or width) of `0` counts as absent: `"%.0s" % x` (always empty) becomes `f"{x}"`. -/
-def D16_fstringZeroPrecision (c : FixCase) : Bool := c.pctZero && (match c.adds with | some (_ :: _) => true | _ => false)
+def oldD16_fstringZeroPrecision (c : FixCase) : Bool := c.pctZero && (match c.adds with | some (_ :: _) => true | _ => false)
 
-/-- **Class `missingFInFstring`**: `missing_f` fires on a literal piece of an f-string (`f"{x} {{y}}"`: the piece
+/-- **Former class `missingFInFstring`** (repaired by 2d2e8a7; no longer printed — a recurrence is new):
+`missing_f` fired on a literal piece of an f-string (`f"{x} {{y}}"`: the piece
 `" {y}"`), and the f-string nested into the f-string is printed as `f'{x}f' {y}''`. -/
-def D16_missingFInFstring (c : FixCase) : Bool := c.inJoinedStr && (match c.adds with | some (_ :: _) => true | _ => false)
+def oldD16_missingFInFstring (c : FixCase) : Bool := c.inJoinedStr && (match c.adds with | some (_ :: _) => true | _ => false)
 
 /-- **Class `decoratedStmt`**: a decorated `def`/`class` is regenerated *with* its decorators, but only the
 lines from the `def` keyword on are replaced: the old decorator lines stay above the new ones. -/
